@@ -9,6 +9,7 @@ RULE = ("fault enumeration: an unstorable value (a sequence containing None, whi
         "loads something else) and whether save raised are compared with the Lean model of save_h5 and checked against the "
         "property directly; non-trivial = a fault with a previous file present")
 BAD = {"t": "seq", "v": [{"t": "num", "v": "1"}, {"t": "none"}]}
+BIG = {"t": "big", "n": 20000}          # a 160 kB array as a history parameter: too large for an HDF5 attribute
 
 
 def base_obj(rng):
@@ -36,6 +37,8 @@ def fault_positions(o):
             out.append(("hist[%d].%s" % (s, o["hist"][s][1][i][0]), m))
         m = copy.deepcopy(o); m["hist"][s][1].append(["bad", BAD])
         out.append(("hist[%d].+new" % s, m))
+        m = copy.deepcopy(o); m["hist"][s][1].append(["bad", BIG])     # refused by HDF5 itself (OSError), not by h5py's type check
+        out.append(("hist[%d].oversize" % s, m))
     return out
 
 
